@@ -311,7 +311,9 @@ class Transpiler:
             # rejection tests of the beta samplers compare against Fermi-function-weighted spectra, where the
             # reference's short constants (0.511, 3.1415927) are worth up to ~5e-5 relative: own margin class
             # a clamp (if (x < c) x = c) is continuous in its comparison: logged for threshold discovery, no margin
-            if getattr(self, 'force_clamp', False) or (getattr(self, 'u', None) is not None and self.u.name.lower() in CLAMP_UNITS):
+            # (the spectrum functions fe1_modN / fe2_modN / fe12_modN return 0 beyond the end-point, which their own
+            #  (e0-e1-e2)^n or momentum factors approach continuously: same class)
+            if getattr(self, 'force_clamp', False) or (getattr(self, 'u', None) is not None and (self.u.name.lower() in CLAMP_UNITS or re.fullmatch(r'fe\d*_mod\d+', self.u.name.lower()))):
                 return ('CCMP_%s(%s, %s, %d)' % (self.REL[op], l[0], r[0], self.curline), 'bool')
             # comparisons of the double-beta kernel against its tabulated / integrated spectra: their noise level is measured
             # per configuration (first-lepton table of port vs model) and must not be charged to branch decisions elsewhere
